@@ -13,7 +13,8 @@ NOEXP = "not any(call(e, obj) is _EXPIRED_OBJECT for e in evaluators)"
 fn("orm/evaluator.py::_EvaluatorCompiler.visit_and_clauselist_op.evaluate",
    props=["C43"], types={"evaluators": "seq", "elems:evaluators": "fn", "obj": "v", "sub_evaluate": "fn"}, consts=CONSTS,
    requires=[DOM3],
-   invariant={0: ["all(call(evaluators[j], obj) is True for j in range(_i))"]},
+   invariant={0: ["all(call(evaluators[j], obj) is True or call(evaluators[j], obj) is None for j in range(_i))",
+                  "has_null == any(call(evaluators[j], obj) is None for j in range(_i))"]},
    ensures=[
        # SQL AND: FALSE if any operand is FALSE, else NULL if any is NULL, else TRUE
        f"implies({NOEXP}, result is (False if any(call(e, obj) is False for e in evaluators) else (None if any(call(e, obj) is None for e in evaluators) else True)))",
